@@ -5,6 +5,8 @@ package bcv
 
 import (
 	"fmt"
+	"math"
+	"reflect"
 	"sort"
 	"strings"
 
@@ -161,4 +163,113 @@ func Fingerprint(bc *ugo.Bytecode) string {
 		}
 	}
 	return sb.String()
+}
+
+// DeepFingerprint renders everything reachable from bc - exported or not - by reflection: any field a run writes
+// (a hidden cache, a "last used" slot) changes it. Function values are rendered as nil/non-nil, values of the
+// packages sync and sync/atomic are skipped (locks and counters are not the program), map keys are sorted, pointers
+// are followed once.
+func DeepFingerprint(bc *ugo.Bytecode) string {
+	var sb strings.Builder
+	seen := map[uintptr]int{}
+	deepWalk(&sb, seen, reflect.ValueOf(bc), 0)
+	return sb.String()
+}
+
+func deepWalk(sb *strings.Builder, seen map[uintptr]int, v reflect.Value, depth int) {
+	if depth > 200 {
+		sb.WriteString("<deep>")
+		return
+	}
+	if !v.IsValid() {
+		sb.WriteString("<invalid>")
+		return
+	}
+	t := v.Type()
+	if p := t.PkgPath(); p == "sync" || p == "sync/atomic" || strings.HasSuffix(p, "/vshim/sync") || strings.HasSuffix(p, "/vshim/atomic") {
+		sb.WriteString("<sync>")
+		return
+	}
+	switch v.Kind() {
+	case reflect.Bool:
+		fmt.Fprintf(sb, "%v", v.Bool())
+	case reflect.Int, reflect.Int8, reflect.Int16, reflect.Int32, reflect.Int64:
+		fmt.Fprintf(sb, "%d", v.Int())
+	case reflect.Uint, reflect.Uint8, reflect.Uint16, reflect.Uint32, reflect.Uint64, reflect.Uintptr:
+		fmt.Fprintf(sb, "%d", v.Uint())
+	case reflect.Float32, reflect.Float64:
+		fmt.Fprintf(sb, "%x", math.Float64bits(v.Float()))
+	case reflect.Complex64, reflect.Complex128:
+		fmt.Fprintf(sb, "%v", v.Complex())
+	case reflect.String:
+		fmt.Fprintf(sb, "%q", v.String())
+	case reflect.Func, reflect.Chan, reflect.UnsafePointer:
+		fmt.Fprintf(sb, "<%s nil=%v>", v.Kind(), v.IsNil())
+	case reflect.Interface:
+		if v.IsNil() {
+			sb.WriteString("<nil>")
+			return
+		}
+		fmt.Fprintf(sb, "(%s)", v.Elem().Type())
+		deepWalk(sb, seen, v.Elem(), depth+1)
+	case reflect.Ptr:
+		if v.IsNil() {
+			sb.WriteString("<nil>")
+			return
+		}
+		if id, ok := seen[v.Pointer()]; ok {
+			fmt.Fprintf(sb, "<ptr#%d>", id)
+			return
+		}
+		seen[v.Pointer()] = len(seen)
+		sb.WriteString("&")
+		deepWalk(sb, seen, v.Elem(), depth+1)
+	case reflect.Slice, reflect.Array:
+		if v.Kind() == reflect.Slice && v.IsNil() {
+			sb.WriteString("<nil>")
+			return
+		}
+		sb.WriteString("[")
+		for i := 0; i < v.Len(); i++ {
+			deepWalk(sb, seen, v.Index(i), depth+1)
+			sb.WriteString(",")
+		}
+		sb.WriteString("]")
+	case reflect.Map:
+		if v.IsNil() {
+			sb.WriteString("<nil>")
+			return
+		}
+		type kv struct {
+			k string
+			v reflect.Value
+		}
+		var kvs []kv
+		it := v.MapRange()
+		for it.Next() {
+			var kb strings.Builder
+			deepWalk(&kb, seen, it.Key(), depth+1)
+			kvs = append(kvs, kv{kb.String(), it.Value()})
+		}
+		sort.Slice(kvs, func(i, j int) bool { return kvs[i].k < kvs[j].k })
+		sb.WriteString("map{")
+		for _, e := range kvs {
+			sb.WriteString(e.k)
+			sb.WriteString(":")
+			deepWalk(sb, seen, e.v, depth+1)
+			sb.WriteString(",")
+		}
+		sb.WriteString("}")
+	case reflect.Struct:
+		fmt.Fprintf(sb, "%s{", t.Name())
+		for i := 0; i < v.NumField(); i++ {
+			sb.WriteString(t.Field(i).Name)
+			sb.WriteString(":")
+			deepWalk(sb, seen, v.Field(i), depth+1)
+			sb.WriteString(";")
+		}
+		sb.WriteString("}")
+	default:
+		fmt.Fprintf(sb, "<%s>", v.Kind())
+	}
 }
